@@ -35,6 +35,10 @@ def _assume(term, node, interp):
 
 
 def check(ctx):
+    # positional parameters keep their documented positions (a reordering survives every keyword call)
+    from ..sigrules import signatures as _signatures
+
+    _signatures(ctx, "R-SIG", classes=('skmatter.preprocessing.StandardFlexibleScaler',))
     P = ctx.P
     N = ctx.normalizer()
     cls = P.cls(CLS)
